@@ -8,6 +8,11 @@ from .cfg import CFG
 from .core import AnalysisError, unparse, walk_no_nested
 from .guards import derivation, reaching_defs
 
+def stores_of(node):
+    from .guards import stores
+    return stores(node)
+
+
 DEC = "Codec.decode"
 READER = "AsyncFIXConnection.socket_read_task"
 
@@ -54,6 +59,15 @@ class DecoderView:
             vals = derivation(self.fn, node.id, 0).get(node.id, [])
             if len(vals) == 1:
                 return self.fold_str(vals[0])
+            return None
+        if isinstance(node, ast.Call) and isinstance(node.func, ast.Attribute) and node.func.attr in ("decode", "encode") and not node.keywords \
+                and (not node.args or (len(node.args) == 1 and isinstance(node.args[0], ast.Constant) and str(node.args[0].value).lower() in
+                                       ("ascii", "latin-1", "latin1", "utf-8", "utf8", "iso-8859-1"))):
+            base = self.fold_str(node.func.value)
+            if isinstance(base, bytes) and node.func.attr == "decode" and base.isascii():
+                return base.decode("ascii")
+            if isinstance(base, str) and node.func.attr == "encode" and base.isascii():
+                return base.encode("ascii")
             return None
         if isinstance(node, ast.BinOp) and isinstance(node.op, ast.Add):
             a, b = self.fold_str(node.left), self.fold_str(node.right)
@@ -120,13 +134,39 @@ class DecoderView:
         t = unparse(e)
         if t == f"len({self.buf})":
             return "ALL"
+        if isinstance(e, ast.Name):
+            # a local with several live definitions, each of them the whole buffer or a position found in it: between 0 and len(buffer) either way
+            live = [d for d in self.rd[rnode.id].get(e.id, set()) if d not in self.infeasible_defs(rnode)]
+            vals = [getattr(self.cfg.nodes[d].ast, "value", None) for d in live]
+            if len(vals) > 1 and all(v is not None for v in vals):
+                kinds = set()
+                for v, d in zip(vals, live):
+                    if unparse(v) == f"len({self.buf})":
+                        kinds.add("ALL")
+                    else:
+                        def is_pos(v_, at_, depth=0):
+                            # a position found in the buffer by a search (whatever bounds the search was given)
+                            if isinstance(v_, ast.Call) and isinstance(v_.func, ast.Attribute) and v_.func.attr in ("find", "rfind", "index", "rindex") \
+                                    and unparse(v_.func.value) == self.buf:
+                                return True
+                            if isinstance(v_, ast.Name) and depth < 3:
+                                ds_ = self.rd[at_].get(v_.id, set())
+                                return bool(ds_) and all(getattr(self.cfg.nodes[d_].ast, "value", None) is not None
+                                                         and is_pos(self.cfg.nodes[d_].ast.value, d_, depth + 1) for d_ in ds_)
+                            return False
+                        kinds.add("KEEP" if is_pos(v, d) else "?")
+                if kinds == {"ALL", "KEEP"}:
+                    return "ALL-OR-KEEP"
         if isinstance(e, ast.BinOp) and isinstance(e.op, ast.Sub) and unparse(e.left) == f"len({self.buf})":
             return "ALL-BUT-TAIL"
         # only sums keep 0 <= consumed <= len(buffer) visible
         exprs = [e]
+        dead = self.infeasible_defs(rnode)
         for x in ast.walk(e):
             if isinstance(x, ast.Name):
                 for d in self.rd[rnode.id].get(x.id, set()):
+                    if d in dead:
+                        continue
                     v = getattr(self.cfg.nodes[d].ast, "value", None)
                     if v is not None:
                         exprs.append(v)
@@ -159,6 +199,82 @@ class DecoderView:
             return "FRAME"
         return "OTHER:" + t
 
+    def infeasible_defs(self, rnode):
+        """Definitions that the reaching-definitions analysis lets reach `rnode` but that cannot: the block that makes the definition also
+        sets a local s to a constant c, nothing re-assigns s on the way, and `rnode` is dominated by the edge of a test on which s == c
+        is known to be false (`valid_idx = -1; n = ...` in one arm, `if valid_idx == -1: return` behind it: the arm's `n` is dead below)."""
+        from .guards import facts
+        g = self.cfg
+        key = rnode.id
+        cache = self.__dict__.setdefault("_infeasible", {})
+        if key in cache:
+            return cache[key]
+        out = set()
+        guards = []
+        for t_node in g.nodes:
+            if t_node.kind != "test":
+                continue
+            for lab in ("true", "false"):
+                if g.dominated_by(rnode.id, t_node.id, lab, exc=False):
+                    for a, tv in facts(t_node.ast, lab == "true"):
+                        m = re.fullmatch(r"(\w+) (==|!=) (-?\d+)", a)
+                        if m and ((m.group(2) == "==" and not tv) or (m.group(2) == "!=" and tv)):
+                            guards.append((t_node.id, m.group(1), m.group(3)))
+        if guards:
+            for n in g.nodes:
+                if n.kind != "stmt" or not isinstance(n.ast, ast.Assign):
+                    continue
+                blk = None
+                p = getattr(n.ast, "_parent", None)
+                for fld in ("body", "orelse", "finalbody"):
+                    lst = getattr(p, fld, None)
+                    if isinstance(lst, list) and n.ast in lst:
+                        blk = lst
+                if not blk:
+                    continue
+                for tid, sname, cval in guards:
+                    consts = [st for st in blk if isinstance(st, ast.Assign) and len(st.targets) == 1 and isinstance(st.targets[0], ast.Name) and st.targets[0].id == sname
+                              and unparse(st.value) == cval]
+                    if not consts:
+                        continue
+                    cids = [i for st in consts for i in g.ids_of(st)]
+                    others = [o.id for o in g.nodes if o.kind in ("stmt", "for") and o.id not in cids and sname in stores_of(o)]
+                    if any(any(g.reaches(c_, o, exc=False) for c_ in cids) and g.reaches(o, tid, exc=False) for o in others):
+                        continue
+                    if all(g.reaches(c_, tid, exc=False) or g.reaches(n.id, c_, exc=False) for c_ in cids):
+                        out.add(n.id)
+        # ... and: the definition stands under a test of a local, the use under the opposite outcome of the same test text, and the local
+        # is not re-assigned in between
+        def norm(a, tv):
+            return (a.replace(" != ", " == "), not tv) if " != " in a else (a, tv)
+        use_facts = {}
+        for t_node in g.nodes:
+            if t_node.kind == "test":
+                for lab in ("true", "false"):
+                    if g.dominated_by(rnode.id, t_node.id, lab, exc=False):
+                        for a, tv in facts(t_node.ast, lab == "true"):
+                            use_facts.setdefault(norm(a, tv), t_node.id)
+        for n in g.nodes:
+            if n.kind != "stmt" or not isinstance(n.ast, ast.Assign) or n.id in out:
+                continue
+            for t_node in g.nodes:
+                if t_node.kind != "test":
+                    continue
+                for lab in ("true", "false"):
+                    if not g.dominated_by(n.id, t_node.id, lab, exc=False):
+                        continue
+                    for a0, tv0 in facts(t_node.ast, lab == "true"):
+                        a, tv = norm(a0, tv0)
+                        if (a, not tv) in use_facts and re.fullmatch(r"\w+ (==|<|>|<=|>=) -?\w+", a):
+                            names_ = {x.id for x in ast.walk(t_node.ast) if isinstance(x, ast.Name)}
+                            tid = use_facts[(a, not tv)]
+                            redefs = [o.id for o in g.nodes if o.kind in ("stmt", "for") and names_ & stores_of(o)
+                                      and g.reaches(n.id, o.id, exc=False) and g.reaches(o.id, tid, exc=False)]
+                            if not redefs and (tid == t_node.id or g.reaches(n.id, tid, exc=False)):
+                                out.add(n.id)
+        cache[key] = out
+        return out
+
     def _kinds(self, e, out):
         for x in ast.walk(e):
             if isinstance(x, ast.Call):
@@ -169,25 +285,35 @@ class DecoderView:
                 elif isinstance(x.func, ast.Name) and x.func.id == "int":
                     out.add("BODYLEN")
 
-    def sources(self, e, at):
-        """Source kinds the value of ``e`` (evaluated at CFG node ``at``) may depend on: names are
-        resolved through the definitions reaching ``at`` and from there flow-insensitively."""
+    def sources(self, e, at, _dead=None, _depth=0, _seen=None):
+        """Source kinds the value of ``e`` (evaluated at CFG node ``at``) may depend on: names are resolved through the definitions that
+        reach ``at`` (and from each of those through the definitions reaching it, and so on); definitions that cannot reach the node the
+        question was asked for (see infeasible_defs) are left out."""
         out = set()
         self._kinds(e, out)
+        if _dead is None:
+            _dead = self.infeasible_defs(self.cfg.nodes[at]) if self.cfg.nodes[at].kind == "stmt" else set()
+        _seen = set() if _seen is None else _seen
         for x in ast.walk(e):
             if not isinstance(x, ast.Name) or x.id in (self.buf, "self", "len", "int"):
                 continue
             for d in self.rd[at].get(x.id, set()):
+                if d in _dead or (d, x.id) in _seen:
+                    continue
+                _seen.add((d, x.id))
                 a = self.cfg.nodes[d].ast
                 val = getattr(a, "value", None)
                 if val is None:
                     continue
-                self._kinds(val, out)
-                for y in ast.walk(val):
-                    if isinstance(y, ast.Name) and y.id != x.id:
-                        for vals in derivation(self.fn, y.id).values():
-                            for v in vals:
-                                self._kinds(v, out)
+                if _depth < 8:
+                    out |= self.sources(val, d, _dead, _depth + 1, _seen)
+                else:
+                    self._kinds(val, out)
+                    for y in ast.walk(val):
+                        if isinstance(y, ast.Name) and y.id != x.id:
+                            for vals in derivation(self.fn, y.id).values():
+                                for v in vals:
+                                    self._kinds(v, out)
         return out
 
 
@@ -224,7 +350,7 @@ def extent_findings(dv: DecoderView):
     for c, r, lit in text_searches:
         inst += 1
         if lit is None:
-            bad.append((f"search[{unparse(c.args[0])[:30]}]", "a frame-extent search pattern does not fold to a literal", c))
+            raise AnalysisError(f"decode: the frame-extent search pattern `{unparse(c.args[0])[:50]}` does not fold to a literal: what delimits a frame is not visible")
         elif not lit.startswith(dv.soh):
             bad.append((f"search[{lit!r}]", f"the frame extent depends on a search for the bare text {lit!r}, which can occur inside a field value "
                                             "(values never contain SOH, so only SOH-anchored patterns are unambiguous): the value is cut there", c))
